@@ -1520,7 +1520,7 @@ impl<'source> FormatItem<'source> {
         let too_long = self.line_length() > columns_remaining;
         let force_break = items.iter().any(FormatItem::force_break);
         #[cfg(koto_verif)]
-        verif_trace::record(self, items, options, column, too_long, force_break);
+        let (verif_output_start, verif_column) = (output.len(), column);
 
         // Use indent logic if the line is too long, if one of the group contains a forced break,
         // or if the last item is an indented block.
@@ -1678,6 +1678,18 @@ impl<'source> FormatItem<'source> {
                 item.render(output, false, false, options, column)?;
             }
         }
+
+        #[cfg(koto_verif)]
+        verif_trace::record(
+            self,
+            items,
+            options,
+            verif_column,
+            indented,
+            too_long,
+            force_break,
+            &output[verif_output_start..],
+        );
 
         Ok(())
     }
@@ -1974,7 +1986,7 @@ pub mod verif_trace {
     use super::{FormatItem, FormatOptions};
     use std::cell::RefCell;
     use std::fmt::Write;
-    use unicode_width::UnicodeWidthChar;
+    use unicode_width::{UnicodeWidthChar, UnicodeWidthStr};
 
     thread_local! {
         static TRACE: RefCell<Option<Vec<String>>> = const { RefCell::new(None) };
@@ -1985,22 +1997,28 @@ pub mod verif_trace {
         TRACE.with(|t| *t.borrow_mut() = Some(Vec::new()));
     }
 
-    /// Stops recording and returns one line per decision:
-    /// `<line_length> <column> <measured> <too_long> <force_break> <last_is_block> <tree>`
+    /// Stops recording and returns one line per rendered group:
+    /// `v2 <line_length> <indent_width> <column> <indented> <measured> <too_long> <force_break>
+    /// <last_is_block> <tree> <widths of the lines the group appended to the output, comma separated>`
     pub fn take() -> Vec<String> {
         TRACE.with(|t| t.borrow_mut().take().unwrap_or_default())
+    }
+
+    // the display widths of the text's lines
+    fn text(s: &str, out: &mut String) {
+        out.push_str("(t");
+        for line in s.split('\n') {
+            write!(out, " {}", line.width()).unwrap();
+        }
+        out.push(')');
     }
 
     fn sexp(item: &FormatItem, out: &mut String) {
         match item {
             FormatItem::Char(c) => write!(out, "(c {})", c.width().unwrap_or(0)).unwrap(),
             FormatItem::OptionalChar(c) => write!(out, "(o {})", c.width().unwrap_or(0)).unwrap(),
-            FormatItem::Str(s) => {
-                write!(out, "(s {} {})", super::first_line_length(s), s.matches('\n').count() + 1).unwrap()
-            }
-            FormatItem::KString(s) => {
-                write!(out, "(s {} {})", super::first_line_length(s), s.matches('\n').count() + 1).unwrap()
-            }
+            FormatItem::Str(s) => text(s, out),
+            FormatItem::KString(s) => text(s, out),
             FormatItem::Group { items, .. } => {
                 out.push_str("(g");
                 for i in items {
@@ -2020,8 +2038,10 @@ pub mod verif_trace {
         items: &[FormatItem],
         options: &FormatOptions,
         column: usize,
+        indented: bool,
         too_long: bool,
         force_break: bool,
+        rendered: &str,
     ) {
         TRACE.with(|t| {
             if let Some(trace) = t.borrow_mut().as_mut() {
@@ -2033,15 +2053,23 @@ pub mod verif_trace {
                 if tree.len() > 6000 {
                     return;
                 }
+                let widths = rendered
+                    .split('\n')
+                    .map(|line| line.width().to_string())
+                    .collect::<Vec<_>>()
+                    .join(",");
                 trace.push(format!(
-                    "{} {} {} {} {} {} {}",
+                    "v2 {} {} {} {} {} {} {} {} {} {}",
                     options.line_length,
+                    options.indent_width,
                     column,
+                    indented as u8,
                     group.line_length(),
                     too_long as u8,
                     force_break as u8,
                     items.last().is_some_and(FormatItem::is_indented_block) as u8,
-                    tree
+                    tree,
+                    widths
                 ));
             }
         });
